@@ -21,7 +21,7 @@
    the k-th originated packet); theorems over all f cover every policy, theorems about histories start from
    [init_id i0 pk0] for EVERY start value i0 and EVERY policy pk0.  HEAD's policy (f.id++ from 0) is
    [head_pick 0]: C05_head_id_policy. *)
-From OV Require Import Common.Base C05.Model C05.Rfc2 C05.Disp C05.Sess C05.Proofs C05.Proofs2 C05.ProofsD C05.ProofsS.
+From OV Require Import Common.Base C05.Model C05.Rfc2 C05.Disp C05.Sess C05.Proofs C05.Proofs2 C05.ProofsD C05.ProofsS C05.Adm C05.ProofsA.
 Open Scope Z_scope.
 
 (* ---- the specification side is transcribed twice ------------------------------------------- *)
@@ -546,3 +546,35 @@ Theorem C05_session_lns_lcp_down_before_c99b5bd_refuted :
    st (s_ipcp (sy r)) = Starting /\ ipcpOpen r = false /\ ph r = PhEstablish).
 Proof. exact lns_lcp_down_refuted. Qed.
 Print Assumptions C05_session_lns_lcp_down_before_c99b5bd_refuted.
+
+(* ---- admissible Identifier policies (Adm.v): what gives the stale-identifier clause its meaning ------------ *)
+
+(* Under an admissible Identifier policy (the Identifier of a Configure-Request was carried by no Configure-Request
+   among the last 255 originated packets, a retransmission may keep its own), a Configure-Ack / -Nak / -Reject
+   carrying the Identifier of ANY earlier Configure-Request of that window is ignored: no state change, no handler
+   call, nothing sent - for every start value, policy, configuration and history. *)
+Theorem C05_stale_earlier_request_ignored :
+  forall i0 pk0 c v es j code k data,
+  let t := trace c v (init_id i0 pk0) es in
+  let f := run c v (init_id i0 pk0) es in
+  ids_admissible t = true -> In j (earlier_requests t) -> is_ack_code code = true ->
+  step c v f (EInput code j k data) = clear_out f.
+Proof. exact stale_earlier_request_ignored. Qed.
+Print Assumptions C05_stale_earlier_request_ignored.
+
+(* /repo HEAD's policy (f.id++ modulo 256) is admissible, also across the wrap of the 8-bit counter: 300
+   Configure-Naks, 301 Configure-Requests, 254 earlier requests in the window (non-vacuity of the theorem above). *)
+Example C05_head_policy_admissible :
+  let es := [EOpen; EUp] ++ naks 300 1 in
+  ids_admissible (trace default_cfg Repaired init es) = true /\
+  length (earlier_requests (trace default_cfg Repaired init es)) = 254%nat.
+Proof. exact head_policy_admissible. Qed.
+Print Assumptions C05_head_policy_admissible.
+
+(* A two-valued policy (Identifier = previous xor 1) is NOT admissible - and under it the answer to request N-2 is
+   taken for the answer to the current request (Ack-Rcvd). *)
+Example C05_two_valued_policy_inadmissible :
+  ids_admissible (trace default_cfg Repaired (init_id 0 xor_pick) [EOpen; EUp; rcn 1; rcn 0]) = false /\
+  st (run default_cfg Repaired (init_id 0 xor_pick) [EOpen; EUp; rcn 1; rcn 0; EInput 2 1 CGood []]) = AckRcvd.
+Proof. exact two_valued_policy_inadmissible. Qed.
+Print Assumptions C05_two_valued_policy_inadmissible.
